@@ -612,6 +612,21 @@ def normalise_control(stmts: list[ast.stmt]) -> list[ast.stmt]:
                     continue
                 break
             rest = list(stmts[i + 1:])
+            if isinstance(test, ast.Compare) and len(test.ops) == 1 and isinstance(test.ops[0], ast.In) and \
+                    isinstance(test.comparators[0], (ast.Tuple, ast.List, ast.Set)) and 1 < len(test.comparators[0].elts) <= 6 and \
+                    all(isinstance(x, ast.Constant) for x in test.comparators[0].elts) and isinstance(test.left, (ast.Name, ast.Attribute)) and \
+                    body and not _only_terminator(body) and not _only_terminator(orelse):
+                # x in (a, b) is x == a or x == b
+                test = ast.copy_location(ast.BoolOp(op=ast.Or(), values=[
+                    ast.Compare(left=clone(test.left), ops=[ast.Eq()], comparators=[clone(x)]) for x in test.comparators[0].elts]), test)
+                ast.fix_missing_locations(test)
+            if isinstance(test, ast.BoolOp) and isinstance(test.op, ast.Or) and not _only_terminator(body) and _size(body) <= 8 and \
+                    all(isinstance(v, ast.Compare) for v in test.values):
+                # if a or b: X else: E  ==  if a: X else: (if b: X else: E)   (X is small: it is analysed once per alternative)
+                inner = orelse
+                for v in reversed(test.values):
+                    inner = [ast.copy_location(ast.If(test=v, body=clone_block(body), orelse=inner), st)]
+                return out + normalise_control(inner + rest)
             if isinstance(test, ast.BoolOp) and isinstance(test.op, ast.Or) and _only_terminator(body):
                 # if a or b: T else: E  ==  if a: T else: (if b: T else: E)
                 inner: list[ast.stmt] = orelse
@@ -798,12 +813,12 @@ def _loops_to_comprehensions(stmts: list[ast.stmt]) -> list[ast.stmt]:
         if isinstance(st, ast.For) and not st.orelse and st.body:
             body = list(st.body)
             flt = None
-            if len(body) == 2 and isinstance(body[0], ast.If) and not body[0].orelse and len(body[0].body) == 1 and isinstance(body[0].body[0], ast.Continue):
+            if len(body) >= 2 and isinstance(body[0], ast.If) and not body[0].orelse and len(body[0].body) == 1 and isinstance(body[0].body[0], ast.Continue):
                 flt = ast.UnaryOp(op=ast.Not(), operand=body[0].test)
                 body = body[1:]
-            elif len(body) == 1 and isinstance(body[0], ast.If) and not body[0].orelse and len(body[0].body) == 1 and isinstance(body[0].body[0], ast.AugAssign):
+            elif len(body) == 1 and isinstance(body[0], ast.If) and not body[0].orelse and body[0].body and isinstance(body[0].body[-1], ast.AugAssign):
                 flt = body[0].test
-                body = body[0].body
+                body = list(body[0].body)
             temps_ = {}
             if len(body) > 1 and all(isinstance(b, ast.Assign) and len(b.targets) == 1 and isinstance(b.targets[0], ast.Name) for b in body[:-1]):
                 temps_ = {b.targets[0].id: b.value for b in body[:-1]}
@@ -827,6 +842,28 @@ def _loops_to_comprehensions(stmts: list[ast.stmt]) -> list[ast.stmt]:
                                         value=ast.Call(func=ast.Name(id="sum", ctx=ast.Load()), args=[comp], keywords=[]))
                     out.append(ast.fix_missing_locations(ast.copy_location(new, st)))
                     continue
+        out.append(st)
+    return out
+
+
+def _lookup_guards(stmts: list[ast.stmt]) -> list[ast.stmt]:
+    """`try: t = D[k]` / `except KeyError: <leave>`  is  `if k not in D: <leave>` followed by `t = D[k]`."""
+    out: list[ast.stmt] = []
+    for st in stmts:
+        for field in ("body", "orelse", "finalbody"):
+            sub = getattr(st, field, None)
+            if isinstance(sub, list) and sub and isinstance(sub[0], ast.stmt) and not isinstance(st, (ast.FunctionDef, ast.ClassDef)):
+                setattr(st, field, _lookup_guards(sub))
+        if isinstance(st, ast.Try) and len(st.body) == 1 and isinstance(st.body[0], ast.Assign) and isinstance(st.body[0].value, ast.Subscript) \
+                and len(st.handlers) == 1 and dotted(st.handlers[0].type) == "KeyError" and st.handlers[0].name is None \
+                and not st.orelse and not st.finalbody and _terminates(st.handlers[0].body) and \
+                isinstance(st.body[0].value.value, (ast.Name, ast.Attribute)) and not isinstance(st.body[0].value.slice, (ast.Slice, ast.Tuple)):
+            sub_ = st.body[0].value
+            guard = ast.If(test=ast.Compare(left=clone(sub_.slice), ops=[ast.NotIn()], comparators=[clone(sub_.value)]),
+                           body=st.handlers[0].body, orelse=[])
+            out.append(ast.fix_missing_locations(ast.copy_location(guard, st)))
+            out.append(st.body[0])
+            continue
         out.append(st)
     return out
 
@@ -946,6 +983,7 @@ class Signature:
     def _build(self, fn_node: ast.FunctionDef, roles: list[str] | None, lenient: bool) -> None:
         self.lenient = lenient
         fn = _strip(fn_node)
+        fn.body = _lookup_guards(fn.body)
         fn.body = _loops_to_comprehensions(fn.body)
         fn.body = _ifexp_statements(fn.body)
         fn.body = _normalise_loops(normalise_control(fn.body) or [ast.Pass()])
@@ -1094,10 +1132,56 @@ class Signature:
         self.loopvars = set(mapping.values())
         self.facts: set[tuple] = set()
         self.trace: list[tuple] = []   # the same effects in program order
-        self._seq: dict[str, int] = {}
+        self._seq: dict[str, list] = {}
         self._collect(fn.body, ())
 
+    @staticmethod
+    def _simplify_ctx(ctx: tuple) -> tuple:
+        """Conditions are a conjunction: runs of if/ifnot entries between loop entries are sorted, and `x != c2` is dropped
+        where `x == c1` (another constant) is already known."""
+        import re as _re
+        out: list[str] = []
+        run: list[str] = []
+
+        def flush():
+            eqs = {}
+            for c in run:
+                m = _re.fullmatch(r"if cmp\[Eq\]\((.+?), (.+)\)", c)
+                if m:
+                    eqs.setdefault(m.group(2), set()).add(m.group(1))
+                    eqs.setdefault(m.group(1), set()).add(m.group(2))
+            keep = []
+            for c in run:
+                m = _re.fullmatch(r"ifnot cmp\[Eq\]\((.+?), (.+)\)", c)
+                if m:
+                    a_, b_ = m.group(1), m.group(2)
+                    lit = lambda t: bool(_re.fullmatch(r"-?\d+(\.\d+)?|'[^']*'", t))  # noqa: E731
+                    implied = (lit(a_) and any(lit(o) and o != a_ for o in eqs.get(b_, ()))) or (lit(b_) and any(lit(o) and o != b_ for o in eqs.get(a_, ())))
+                    if implied:
+                        continue
+                keep.append(c)
+            out.extend(sorted(set(keep)))
+            run.clear()
+
+        for c in ctx:
+            if c.startswith("if ") or c.startswith("ifnot "):
+                run.append(c)
+            else:
+                flush()
+                out.append(c)
+        flush()
+        return tuple(out)
+
     def _add(self, fact: tuple) -> None:
+        # contexts in conjunction normal form
+        if fact[0] == "set":
+            fact = (*fact[:4], self._simplify_ctx(fact[4]), fact[5])
+        elif fact[0] in ("ret", "expr", "stmt"):
+            fact = (fact[0], fact[1], self._simplify_ctx(fact[2]))
+        elif fact[0] == "raise":
+            fact = ("raise", self._simplify_ctx(fact[1]))
+        elif fact[0] in ("break", "continue"):
+            fact = (fact[0], self._simplify_ctx(fact[1]), *fact[2:])
         if fact[0] == "set" and fact[2] == "=":
             import re as _re
             if _re.sub(r"@[\d_]+", "", fact[3]) == fact[1]:
@@ -1139,18 +1223,39 @@ class Signature:
             return None
         return rest.canon()
 
-    def _next(self, target: str) -> int:
-        """Position of this update among the updates of the same target (program order): the order of successive
-        updates of one variable/element is part of the function computed."""
-        k = self._seq.get(target, 0)
-        self._seq[target] = k + 1
+    def _next(self, target: str, ctx: tuple = ()) -> int:
+        """Position of this update among the earlier updates of the same target that can happen in the same run (their
+        conditions do not contradict this one's): the order of successive updates of one variable/element is part of the
+        function computed; updates on mutually exclusive branches are not ordered relative to each other."""
+        import re as _re
+        mine = self._simplify_ctx(ctx)
+        seen = self._seq.setdefault(target, [])
+
+        def contradict(a: tuple, b: tuple) -> bool:
+            sa, sb = set(a), set(b)
+            for c in sa:
+                if c.startswith("if ") and ("ifnot " + c[3:]) in sb:
+                    return True
+                if c.startswith("ifnot ") and ("if " + c[6:]) in sb:
+                    return True
+                m = _re.fullmatch(r"if cmp\[Eq\]\((.+?), (.+)\)", c)
+                if m:
+                    for d in sb:
+                        n = _re.fullmatch(r"if cmp\[Eq\]\((.+?), (.+)\)", d)
+                        if n and n.group(2) == m.group(2) and n.group(1) != m.group(1) and \
+                                _re.fullmatch(r"-?\d+(\.\d+)?|'[^']*'", n.group(1)) and _re.fullmatch(r"-?\d+(\.\d+)?|'[^']*'", m.group(1)):
+                            return True
+            return False
+
+        k = sum(1 for other in seen if not contradict(mine, other))
+        seen.append(mine)
         return k
 
     def _collect(self, stmts, ctx: tuple) -> None:
         for st in stmts:
             if isinstance(st, ast.For):
                 ext = st.target.id if isinstance(st.target, ast.Name) else norm(st.target)
-                self.skeleton.append(ctx + (ext,))
+                self.skeleton.append(self._simplify_ctx(ctx) + (ext,))
                 self._collect(st.body, ctx + (ext,))
             elif isinstance(st, ast.If):
                 c = self._canon(st.test, st)
@@ -1174,9 +1279,9 @@ class Signature:
                     tt = self._target(t, st)
                     upd = self._as_update(tt, v, st) if not tag else None
                     if upd is not None:
-                        self._add(("set", tt, "Add=", upd, ctx, self._next(tt)))
+                        self._add(("set", tt, "Add=", upd, ctx, self._next(tt, ctx)))
                     else:
-                        self._add(("set", tt, "=", self._canon(v, st) + tag, ctx, self._next(tt)))
+                        self._add(("set", tt, "=", self._canon(v, st) + tag, ctx, self._next(tt, ctx)))
             elif isinstance(st, ast.AugAssign):
                 tt = self._target(st.target, st)
                 if isinstance(st.op, ast.Sub):
@@ -1185,9 +1290,9 @@ class Signature:
                     ast.fix_missing_locations(neg)
                     stop = set(self.loopvars) | self.objects
                     ex = self.flow.expand(st.value, self.flow.node_for(st), stop=stop)
-                    self._add(("set", tt, "Add=", (-PolyEnv().poly(ex)).canon(), ctx, self._next(tt)))
+                    self._add(("set", tt, "Add=", (-PolyEnv().poly(ex)).canon(), ctx, self._next(tt, ctx)))
                 else:
-                    self._add(("set", tt, type(st.op).__name__ + "=", self._canon(st.value, st), ctx, self._next(tt)))
+                    self._add(("set", tt, type(st.op).__name__ + "=", self._canon(st.value, st), ctx, self._next(tt, ctx)))
             elif isinstance(st, ast.Return):
                 self._add(("ret", self._canon(st.value, st) if st.value is not None else "None", ctx))
             elif isinstance(st, ast.Expr):
@@ -1198,7 +1303,7 @@ class Signature:
                 self._add(("raise", ctx))
             elif isinstance(st, ast.While):
                 c = self._canon(st.test, st)
-                self.skeleton.append(ctx + (f"while {c}",))
+                self.skeleton.append(self._simplify_ctx(ctx) + (f"while {c}",))
                 self._collect(st.body, ctx + (f"while {c}",))
                 self._collect(st.orelse, ctx + (f"whileelse {c}",))
             elif isinstance(st, ast.With):
@@ -1212,9 +1317,9 @@ class Signature:
                 self._collect(st.orelse, ctx + ("tryelse",))
                 self._collect(st.finalbody, ctx + ("finally",))
             elif isinstance(st, ast.Break):
-                self._add(("break", ctx, self._next("break" + str(ctx))))
+                self._add(("break", ctx, self._next("break" + str(ctx), ctx)))
             elif isinstance(st, ast.Continue):
-                self._add(("continue", ctx, self._next("continue" + str(ctx))))
+                self._add(("continue", ctx, self._next("continue" + str(ctx), ctx)))
             elif isinstance(st, (ast.Pass, ast.Assert)):
                 continue   # an assertion states an invariant; it has no effect when it holds
             elif self.lenient:
@@ -1321,6 +1426,19 @@ def compare(fn: FuncInfo, name: str | None = None) -> tuple[str, list[str]]:
     if act.facts == ref.facts:
         return "same", [f"{len(act.facts)} effects equal to the reference definition modulo renaming and polynomial normal form"] + (
             [f"(additional domain guards that only reject invalid input: {tolerated})"] if tolerated else [])
+    import re as _re
+    surplus = act.facts - ref.facts
+    if not (ref.facts - act.facts) and surplus:
+        ref_targets = {f[1] for f in ref.facts if f[0] == "set"}
+        ref_dicts = {t.split("[")[0] for t in ref_targets if "['" in t}
+
+        def extra_key(f) -> bool:
+            m = _re.fullmatch(r"(\$v\d+)\['([^']+)'\]", f[1]) if f[0] == "set" else None
+            return bool(m) and m.group(1) in ref_dicts and f[1] not in ref_targets and f[2] == "="
+        if all(extra_key(f) for f in surplus):
+            keys = sorted(f[1] for f in surplus)
+            return "same", [f"{len(ref.facts)} effects equal to the reference definition; additional entries {keys} are stored in a dictionary the "
+                            f"definition also builds (nothing in the definition reads them)"]
     extra = sorted(map(str, act.facts - ref.facts))
     missing = sorted(map(str, ref.facts - act.facts))
     return "different", [f"kernel has: {e}" for e in extra[:4]] + [f"definition needs: {m}" for m in missing[:4]]
